@@ -313,6 +313,36 @@ func clonePins(p map[ssa.Value]Val) map[ssa.Value]Val {
 func (m *Machine) refine(a *activation, cond ssa.Value, outcome bool) {
 	a.cur.pin(cond, BoolV(outcome))
 	switch c := cond.(type) {
+	case *ssa.Extract:
+		// a boolean component of a callee's result tuple: keep the return sites compatible with the
+		// outcome and refine the sibling components accordingly
+		t := m.val(c.Tuple)
+		if t.K == Tuple && len(t.Alts) > 1 && c.Index < len(t.Fields) {
+			var keep []Val
+			for _, alt := range t.Alts {
+				f := alt.Fields[c.Index]
+				if f.K == Bool && f.B != outcome {
+					continue
+				}
+				keep = append(keep, alt)
+			}
+			if len(keep) > 0 && len(keep) < len(t.Alts) {
+				nt := Val{K: Tuple, Fields: append([]Val(nil), keep[0].Fields...), Alts: keep}
+				for _, alt := range keep[1:] {
+					for i := range nt.Fields {
+						nt.Fields[i] = joinVal(nt.Fields[i], alt.Fields[i])
+					}
+				}
+				a.cur.pin(c.Tuple, nt)
+				if refs := c.Tuple.Referrers(); refs != nil {
+					for _, ref := range *refs {
+						if ex, ok := ref.(*ssa.Extract); ok && ex.Index < len(nt.Fields) && ex != c {
+							a.cur.pin(ex, nt.Fields[ex.Index])
+						}
+					}
+				}
+			}
+		}
 	case *ssa.UnOp:
 		if c.Op == token.NOT {
 			m.refine(a, c.X, !outcome)
@@ -812,6 +842,13 @@ func (m *Machine) call(a *activation, in *ssa.Call) {
 			t := Val{K: Tuple}
 			for i := 0; i < n; i++ {
 				t.Fields = append(t.Fields, withCorr(i, res.Joined(i)))
+			}
+			if len(res.Returns) > 1 && len(res.Returns) <= 8 {
+				for _, rs := range res.Returns {
+					if len(rs.Vals) == n {
+						t.Alts = append(t.Alts, Val{K: Tuple, Fields: append([]Val(nil), rs.Vals...)})
+					}
+				}
 			}
 			m.set(in, t)
 		}
